@@ -224,3 +224,229 @@ Proof. split; [vm_compute; discriminate | vm_compute; reflexivity]. Qed.
 Definition w_echo_bare_octal : list str := [[45;101]; [92;49;48;49]].
 Lemma refuted_echo_bare_octal : echo_builtin w_echo_bare_octal <> BOut [92;49;48;49;10] 0 /\ spec_echo w_echo_bare_octal = None.
 Proof. split; [vm_compute; discriminate | vm_compute; reflexivity]. Qed.
+(* ------------------------------------------------------------------ escapes: code = Spec *)
+Lemma bounded_forall : forall (P : N -> bool) (n : nat),
+  forallb P (map N.of_nat (seq 0 n)) = true -> forall c, c < N.of_nat n -> P c = true.
+Proof.
+  intros P n H c Hc. rewrite forallb_forall in H. apply H.
+  apply in_map_iff. exists (N.to_nat c). split; [lia|]. apply in_seq. lia.
+Qed.
+
+Lemma rd_oct : forall c, rd_ok false c = is_oct c.
+Proof. intro c; unfold rd_ok, is_oct; simpl; rewrite !orb_false_r; reflexivity. Qed.
+Lemma rd_hex : forall c, rd_ok true c = is_hexd c.
+Proof. intro c; unfold rd_ok, is_hexd, in_rng; simpl. lia. Qed.
+
+Lemma read_span : forall p h, (forall c, rd_ok h c = p c) -> forall m s, read_digits m h s = span_max m p s.
+Proof.
+  intros p h Hp; induction m; intro s; simpl; [reflexivity|].
+  destruct s as [|c t]; [reflexivity|]. rewrite Hp. destruct (p c); [|reflexivity].
+  rewrite IHm. reflexivity.
+Qed.
+
+Lemma span_max_spec : forall p k s a b, span_max k p s = (a, b) ->
+  s = a ++ b /\ forallb p a = true /\ (length a <= k)%nat.
+Proof.
+  intros p; induction k; intros s a b H; simpl in H.
+  - inversion H; subst; simpl; repeat split; auto.
+  - destruct s as [|c t]; [inversion H; subst; simpl; repeat split; auto; lia|].
+    destruct (p c) eqn:Pc.
+    + destruct (span_max k p t) as [a' b'] eqn:E. inversion H; subst.
+      apply IHk in E. destruct E as (E1 & E2 & E3). subst t. simpl. rewrite Pc, E2. repeat split; auto. lia.
+    + inversion H; subst; simpl; repeat split; auto; lia.
+Qed.
+
+Lemma span_max_maximal : forall p k s a b, span_max k p s = (a, b) -> (length s <= k)%nat ->
+  match b with [] => True | c :: _ => p c = false end.
+Proof.
+  intros p; induction k; intros s a b H L; simpl in H.
+  - destruct s; [inversion H; subst; exact I | simpl in L; lia].
+  - destruct s as [|c t]; [inversion H; subst; exact I|].
+    destruct (p c) eqn:Pc.
+    + destruct (span_max k p t) as [a' b'] eqn:E. inversion H; subst.
+      eapply IHk; eauto. simpl in L; lia.
+    + inversion H; subst. exact Pc.
+Qed.
+
+Lemma parse_base_lead0 : forall b d, parse_base b (48 :: d) = parse_base b d.
+Proof. intros; unfold parse_base; simpl. reflexivity. Qed.
+
+Lemma digit_val_hex_lt : forall c, is_hexd c = true -> digit_val c < 16.
+Proof.
+  intros c H.
+  assert (Hc : c < 128) by (unfold is_hexd, in_rng in H; lia).
+  revert H. generalize (bounded_forall (fun c => implb (is_hexd c) (digit_val c <? 16)) 128 eq_refl c Hc).
+  destruct (is_hexd c); simpl; intros; [lia|discriminate].
+Qed.
+
+Lemma hex2_lt_256 : forall d, forallb is_hexd d = true -> (length d <= 2)%nat -> parse_base 16 d < 256.
+Proof.
+  intros d H L. destruct d as [|a [|b [|]]]; simpl in L; try lia; unfold parse_base; simpl in *.
+  - lia.
+  - rewrite andb_true_r in H. apply digit_val_hex_lt in H. lia.
+  - apply andb_prop in H; destruct H as [Ha H]. rewrite andb_true_r in H.
+    apply digit_val_hex_lt in Ha, H. lia.
+Qed.
+
+Definition mode_pb (m : escmode) : bool := match m with MFormat => false | _ => true end.
+
+Lemma is_oct_split : forall c, (c =? 48) = false -> is_oct c = in_rng 49 55 c.
+Proof. intros c H; unfold is_oct, in_rng; lia. Qed.
+
+Lemma read_digits_cons : forall m h c t, rd_ok h c = true ->
+  read_digits (S m) h (c :: t) = let '(d, r) := read_digits m h t in (c :: d, r).
+Proof. intros; simpl; rewrite H; reflexivity. Qed.
+
+Ltac atom k :=
+  match goal with
+  | |- context [?c =? k] =>
+      let E := fresh "E" in destruct (c =? k) eqn:E;
+      [ apply N.eqb_eq in E; subst c | ]
+  end.
+
+Section EscStep.
+  Variable brec : str -> outcome.
+
+  Lemma esc_step : forall m t o r, spec_escape m t = Some (o, r) ->
+    forall fuel fmts args,
+    loop brec (S fuel) (mode_pb m) (BSL :: t) fmts args = emit o (loop brec fuel (mode_pb m) r fmts args).
+  Proof.
+    intros m t o r H fuel fmts args. cbn [loop]. change (BSL =? BSL) with true. cbv iota.
+    destruct t as [|c t']; [simpl in H; inversion H; subst; reflexivity|].
+    revert H. unfold spec_escape.
+    atom 97; [intro H; inversion H; subst; reflexivity|].
+    atom 98; [intro H; inversion H; subst; reflexivity|].
+    atom 101; [intro H; inversion H; subst; reflexivity|].
+    atom 69; [intro H; inversion H; subst; reflexivity|].
+    atom 102; [intro H; inversion H; subst; reflexivity|].
+    atom 110; [intro H; inversion H; subst; reflexivity|].
+    atom 114; [intro H; inversion H; subst; reflexivity|].
+    atom 116; [intro H; inversion H; subst; reflexivity|].
+    atom 118; [intro H; inversion H; subst; reflexivity|].
+    atom 92; [intro H; inversion H; subst; reflexivity|].
+    cbn [orb].
+    atom 39; [destruct m; intro H; inversion H; subst; reflexivity|].
+    atom 34; [destruct m; intro H; inversion H; subst; reflexivity|].
+    atom 63; [destruct m; intro H; inversion H; subst; reflexivity|].
+    cbn [orb].
+    atom 48.
+    { change (is_oct 48) with true. cbv iota.
+      destruct m; cbn [mode_pb andb]; change (48 =? 48) with true; cbv iota;
+        rewrite read_digits_cons by reflexivity; rewrite (read_span is_oct false rd_oct);
+        [destruct (span_max 2 is_oct t') as [d r3] | destruct (span_max 3 is_oct t') as [d r3]
+         | destruct (span_max 3 is_oct t') as [d r3]];
+        intro H; inversion H; subst; rewrite parse_base_lead0; reflexivity. }
+    rewrite (is_oct_split c E12).
+    destruct (in_rng 49 55 c) eqn:O.
+    { rewrite andb_false_r. cbv iota.
+      assert (RD : rd_ok false c = true) by (rewrite rd_oct, (is_oct_split c E12); exact O).
+      rewrite read_digits_cons by assumption. rewrite (read_span is_oct false rd_oct).
+      destruct m; destruct (span_max 2 is_oct t') as [d r3]; intro H; inversion H; subst; reflexivity. }
+    destruct (c =? 120) eqn:E14; [apply N.eqb_eq in E14; subst c|].
+    { cbn [orb]. change (120 =? 117) with false. change (120 =? 85) with false. cbv iota.
+      rewrite (read_span is_hexd true rd_hex).
+      destruct (span_max 2 is_hexd t') as [d r3] eqn:S. destruct d as [|d0 d'].
+      - intro H; inversion H; subst. reflexivity.
+      - cbn [nonempty]. cbv iota. change (120 =? 120) with true. cbv iota.
+        apply span_max_spec in S. destruct S as (_ & S2 & S3).
+        rewrite (N.mod_small _ _ (hex2_lt_256 _ S2 S3)).
+        intro H; inversion H; subst. reflexivity. }
+    cbn [orb].
+    destruct ((c =? 117) || (c =? 85)) eqn:U.
+    { rewrite (read_span is_hexd true rd_hex).
+      assert (M : (if c =? 117 then 4%nat else if c =? 85 then 8%nat else 2%nat) = (if c =? 117 then 4%nat else 8%nat)).
+      { destruct (c =? 117); [reflexivity|]. simpl in U. rewrite U. reflexivity. }
+      rewrite M.
+      destruct (span_max (if c =? 117 then 4%nat else 8%nat) is_hexd t') as [d r3] eqn:S. destruct d as [|d0 d'].
+      - intro H; inversion H; subst. reflexivity.
+      - cbn [nonempty]. cbv iota.
+        destruct (is_scalar (parse_base 16 (d0 :: d'))); intro H; inversion H; subst. reflexivity. }
+    cbv iota.
+    atom 99; [destruct m; intro H; inversion H; subst; reflexivity|].
+    atom PCT; [destruct m; intro H; inversion H; subst; reflexivity|].
+    intro H; inversion H; subst; reflexivity.
+  Qed.
+End EscStep.
+
+(* ------------------------------------------------------------------ %b arguments and echo -e *)
+Section BSim.
+  Variable brec : str -> outcome.
+
+  Lemma bexpand_sim : forall sf m s o, mode_pb m = true -> spec_bexpand sf m s = Some o ->
+    forall fuel, loop brec fuel true s [] None = OutOfFuel \/ loop brec fuel true s [] None = Done o None.
+  Proof.
+    induction sf; intros m s o Hm H fuel; simpl in H; [discriminate|].
+    destruct fuel; [left; reflexivity|].
+    destruct s as [|c t].
+    - inversion H; subst. right. reflexivity.
+    - destruct (c =? BSL) eqn:E.
+      + apply N.eqb_eq in E; subst c.
+        destruct (spec_escape m t) as [[eo r]|] eqn:SE; [|discriminate].
+        destruct (spec_bexpand sf m r) as [o'|] eqn:SB; [|discriminate].
+        inversion H; subst.
+        pose proof (esc_step brec m t eo r SE fuel [] None) as ST. rewrite Hm in ST. rewrite ST.
+        destruct (IHsf m r o' Hm SB fuel) as [L|R]; rewrite ?L, ?R; [left|right]; reflexivity.
+      + destruct (spec_bexpand sf m t) as [o'|] eqn:SB; [|discriminate].
+        inversion H; subst.
+        cbn [loop]. rewrite E. cbn [nonempty andb]. cbv iota.
+        destruct (IHsf m t o' Hm SB fuel) as [L|R]; rewrite ?L, ?R; [left|right]; reflexivity.
+  Qed.
+End BSim.
+
+Lemma format_b_spec : forall m arg o, mode_pb m = true -> spec_b m arg = Some o -> format_b arg = Done o None.
+Proof.
+  intros m arg o Hm H. unfold spec_b in H. unfold format_b.
+  destruct (bexpand_sim (fun _ => Unmodelled) _ m arg o Hm H (S (S (length arg)))) as [L|R]; [|exact R].
+  exfalso. revert L. apply loop_no_oof; [discriminate | lia].
+Qed.
+
+(* Format("%b", [arg]) *)
+Lemma format_pct_b : forall arg o, format_b arg = Done o None -> format [PCT; 98] (Some [arg]) = FOk o 1.
+Proof.
+  intros arg o H. unfold format, format_into. simpl length.
+  cbn [loop]. change (PCT =? BSL) with false. cbv iota. cbn [nonempty andb]. change (PCT =? PCT) with true. cbv iota.
+  change (98 =? BSL) with false. cbv iota. cbn [nonempty]. cbv iota.
+  change (98 =? PCT) with false. change (98 =? 99) with false. cbv iota.
+  change ((98 =? 43) || (98 =? 45) || (98 =? 32)) with false. change (is_dec 98) with false. cbv iota.
+  change ((98 =? 115) || (98 =? 98) || (98 =? 100) || (98 =? 105) || (98 =? 117) || (98 =? 111) || (98 =? 120)) with true.
+  cbv iota. unfold take_arg. simpl. change (98 =? 98) with true. cbv iota. rewrite H. simpl. rewrite app_nil_r. reflexivity.
+Qed.
+
+Lemma echo_opts_spec : forall args nl ex rest nl' ex', spec_echo_opts args nl ex = Some (rest, nl', ex') ->
+  echo_opts args nl ex = (rest, nl', ex').
+Proof.
+  induction args as [|a t IH]; intros nl ex rest nl' ex' H; simpl in *.
+  - inversion H; reflexivity.
+  - destruct (str_eqb a s_n); [apply IH; exact H|].
+    destruct (str_eqb a s_e); [apply IH; exact H|].
+    destruct (str_eqb a s_E); [apply IH; exact H|].
+    destruct (looks_like_opts a); [discriminate|]. inversion H; reflexivity.
+Qed.
+
+Lemma echo_join_spec : forall ex args o nl, spec_echo_join ex args = Some o -> forall first,
+  echo_args first ex args nl = BOut ((if first then [] else match args with [] => [] | _ => [32] end) ++ o ++ (if nl then [10] else [])) 0.
+Proof.
+  induction args as [|a t IH]; intros o nl H first; simpl in H.
+  - inversion H; subst. simpl. destruct first; reflexivity.
+  - destruct (if ex then spec_b MEcho a else Some a) as [oa|] eqn:EA; [|discriminate].
+    destruct (spec_echo_join ex t) as [ot|] eqn:ET; [|discriminate].
+    inversion H; subst. clear H.
+    cbn [echo_args].
+    assert (X : (if ex then echo_expand a else BOut a 0) = BOut oa 0).
+    { destruct ex.
+      - unfold echo_expand. rewrite (format_pct_b a oa); [reflexivity|].
+        apply (format_b_spec MEcho); [reflexivity | exact EA].
+      - inversion EA; reflexivity. }
+    rewrite X. rewrite (IH ot nl eq_refl false). simpl.
+    destruct t as [|b t']; [simpl in ET; inversion ET; subst|];
+      destruct first; simpl; rewrite <- ?app_assoc; simpl; rewrite ?app_nil_r; reflexivity.
+Qed.
+
+Theorem echo_matches : forall args out st, spec_echo args = Some (out, st) -> echo_builtin args = BOut out st.
+Proof.
+  intros args out st H. unfold spec_echo in H. unfold echo_builtin.
+  destruct (spec_echo_opts args true false) as [[[rest nl] ex]|] eqn:EO; [|discriminate].
+  rewrite (echo_opts_spec _ _ _ _ _ _ EO).
+  destruct (spec_echo_join ex rest) as [o|] eqn:EJ; [|discriminate].
+  inversion H; subst. rewrite (echo_join_spec ex rest o nl EJ true). reflexivity.
+Qed.
